@@ -258,20 +258,26 @@ def work(item):
             ps += pm
         okall = True
         for p in ps:
-            if p.status != 'ok' or p.ret not in (10, 11):
+            if p.status != 'ok' or not (isinstance(p.ret, Term) or p.ret in (10, 11)):
                 out['broken'].append('h_eq d=%d,%d: %r' % (d, d2, p.res))
                 okall = False
                 continue
+            says_equal = T.icmp('eq', p.ret, 10, 32) if isinstance(p.ret, Term) else (p.ret == 10)      # the answer may be a value computed without branching
             if d != d2:
-                if p.ret != 11:
+                if says_equal is not False:
                     dec.candidate('eq:d=%d,%d' % (d, d2), 'vectors of different dimension compare equal', kind='eq', d=d, d2=d2, mode=p.mode)
                     okall = False
                 continue
             spec = True
             for k in range(n):
                 spec = T.band(spec, T.fcmp('oeq', a[k], bb[k]))
-            want = spec if p.ret == 11 else T.bnot(spec)   # violated iff path says "different" but all equal / "equal" but some differ
-            r = solver.check(p.pc + [want], label='operator== path (ret=%s) consistent with component-wise equality d=%d' % ('equal' if p.ret == 10 else 'different', d))
+            want = T.bxor(says_equal, spec)   # violated iff the answer is "different" but all components are equal, or "equal" but some differ
+            # decided over Float64 values (finite, non-NaN): the comparison involves no arithmetic, and +0 == -0 must hold
+            cfp = S.Conv('fp')
+            for t_ in p.pc + [want]:
+                cfp.conv(t_) if isinstance(t_, Term) else None
+            fin_ = [z3.Not(z3.Or(z3.fpIsNaN(v_), z3.fpIsInf(v_))) for v_ in cfp.vars.values() if z3.is_fp(v_)]
+            r = solver.check(p.pc + [want], conv=cfp, extra=fin_, label='operator== path (ret=%s) consistent with component-wise IEEE equality over Float64 values, d=%d' % ('symbolic' if isinstance(p.ret, Term) else 'equal' if p.ret == 10 else 'different', d))
             if r == 'sat':
                 dec.candidate('eq:d=%d,%d' % (d, d2), 'operator== disagrees with component-wise equality (storage mode %d: bit0 left owns, bit1 right owns)' % p.mode, kind='eq', d=d, d2=d2, mode=p.mode)
                 okall = False
@@ -361,6 +367,10 @@ def replay(chk, h, c):
                     ret, o = h.native('h_eq', [I(d), I(d2), Buf('a', v), Buf('b', w), md])
                     worst = max(worst, 1.0 if ret == 10 else 0.0)
                 ret, o = h.native('h_eq', [I(d), I(d2), Buf('a', v), Buf('b', v.copy()), md])
+                worst = max(worst, 1.0 if ret != 10 else 0.0)
+                vz, wz = v.copy(), v.copy()
+                vz[trial % n], wz[trial % n] = 0.0, -0.0          # +0 and -0 are equal components
+                ret, o = h.native('h_eq', [I(d), I(d2), Buf('a', vz), Buf('b', wz), md])
                 worst = max(worst, 1.0 if ret != 10 else 0.0)
     return worst > 1e-9, worst
 
